@@ -157,6 +157,46 @@ def run(shard, rec):
                     rec.case(case, nontrivial=n >= 3)
         return
     m, t, no_prss = shard['cfg']
+    # several list operations pending together on operands input by different parties (each party has its own operand first), results awaited in
+    # another order: the values are those of the operands, whatever the order in which the operations become ready at each party
+    for ci in range(6 if m > 1 else 2):
+        cvals = [rng.randint(-20, 20) for _ in range(6)]
+        order = rng.sample(range(7), 7)
+        policy = rng.choice(sim.POLICIES)
+        sseed = rng.randrange(1 << 30)
+        case = [shard['name'], 'concurrent', ci, policy, sseed]
+        if not rec.wants(case):
+            continue
+
+        async def conc(mpc, pid, cvals=cvals, order=order):
+            secint = mpc.SecInt(32)
+            mm = len(mpc.parties)
+            xs = [mpc.input(secint(cvals[i] if pid == i % mm else 0), senders=i % mm) for i in range(6)]
+            pend = [mpc.in_prod([xs[0], xs[1]], [xs[2], xs[3]]), mpc.in_prod([xs[3], xs[4]], [xs[5], xs[0]]), mpc.matrix_prod([[xs[1], xs[2]]], [[xs[4]], [xs[5]]])[0][0],
+                    mpc.prod([xs[0], xs[2], xs[4]]), xs[1] * xs[5], mpc.in_prod([xs[5], xs[2]], [xs[1], xs[4]]), mpc.sum([xs[0] * xs[1], xs[2] * xs[3]])]
+            got = [None] * 7
+            for j in order:
+                got[j] = int(await mpc.output(pend[j]))
+            return got
+        v = cvals
+        exp_c = [v[0] * v[2] + v[1] * v[3], v[3] * v[5] + v[4] * v[0], v[1] * v[4] + v[2] * v[5], v[0] * v[2] * v[4], v[1] * v[5], v[5] * v[1] + v[2] * v[4], v[0] * v[1] + v[2] * v[3]]
+        w = sim.World(m, t, no_prss, seed=sseed, policy=policy, history='auto').run(conc)
+        rec.count('programs_run')
+        rec.count('concurrent_list_operation_programs')
+        res = w.ok_results()
+        wit = {'values': cvals, 'await_order': order, 'policy': policy, 'sched_seed': sseed}
+        if res is None:
+            rec.violation(f'{shard["name"]} seven list operations pending together: run did not complete: {w.status} {[r for r in w.results() if r[0] == "EXC"][:1]} {w.error_summaries()[:1]}',
+                          {'mechanism': 'no-completion', 'divisor_negative': False, 'deferred_bump': bool(w.deferred_bumps), 'timing_skew': False,
+                           'label_disagreement': any('multisets differ' in p_ for p_ in w.wire_check())}, wit, case=case)
+        else:
+            rec.count('outputs_compared', 7 * len(res))
+            for pid, r in enumerate(res):
+                if r != exp_c:
+                    rec.violation(f'{shard["name"]} seven list operations pending together (awaited in order {order}): party {pid} obtained {r}, Python gives {exp_c}',
+                                  {'mechanism': 'wrong-output', 'op': 'concurrent-list-ops', 'divisor_negative': False}, wit, case=case)
+                    break
+        rec.case(case, nontrivial=m > 1)
     for pi in range(shard['programs']):
         l = rng.choice([4, 8, 16, 32, 32, 64, 61])        # above 60 bits equality tests take another route (probabilistic zero test)
         full = pi % 2 == 0 and l <= 32
